@@ -219,3 +219,44 @@ func firstLines(s string, n int) string {
 func MethodLabel(b *Built, s *m.Service, meth *m.Method) string {
 	return fmt.Sprintf("%s/%s.%s", b.Run.Name, sanitize(s.Name), sanitize(meth.Name))
 }
+
+// BuildOne builds and starts a hand-written design (known-finding probes).
+func BuildOne(t *testing.T, tag string, d *m.Design) (*pipeline.Session, *pipeline.Harness) {
+	sess, err := pipeline.NewSession(tag)
+	if err != nil {
+		t.Fatalf("INCONCLUSIVE: %v", err)
+	}
+	out := sess.GenerateAndCompile(d, false)
+	if !out.Accepted || out.Failure != "" {
+		sess.Close()
+		t.Fatalf("INCONCLUSIVE: probe design: %s", out.Describe())
+	}
+	bin, diag, err := sess.BuildHarness(out.Run, false)
+	if err != nil {
+		sess.Close()
+		t.Fatalf("INCONCLUSIVE: probe harness: %v %s", err, diag)
+	}
+	h, err := pipeline.StartHarness(bin)
+	if err != nil {
+		sess.Close()
+		t.Fatalf("INCONCLUSIVE: %v", err)
+	}
+	return sess, h
+}
+
+// Obj builds an inline object attribute.
+func Obj(fields ...*m.Field) *m.Attr { return &m.Attr{Type: &m.Type{Kind: m.Object, Fields: fields}} }
+
+// Fld builds a field.
+func Fld(name string, a *m.Attr, req bool) *m.Field {
+	return &m.Field{Name: name, Attr: a, Required: req}
+}
+
+// Probe runs f unless VERIF_PROBE_ONLY selects another finding, and records the outcome.
+func Probe(id string, f func() (bool, string)) {
+	if only := os.Getenv("VERIF_PROBE_ONLY"); only != "" && only != id {
+		return
+	}
+	hit, what := f()
+	stats.ProbeResult(id, hit, what)
+}
